@@ -1,6 +1,6 @@
 (* The include walk and node rendering (Model/Node.v): read_class and the ignore settings (C16),
    each class merged at most once / include loops / termination (C01), no panics (C11). *)
-From RV Require Import Model.Node Proofs.ListsFacts Proofs.ValueFacts Proofs.MappingFacts Proofs.WfFacts
+From RV Require Import Model.Node Proofs.ListsFacts Proofs.NamesFacts Proofs.ValueFacts Proofs.MappingFacts Proofs.WfFacts
      Proofs.InterpFacts Proofs.NoPanic Proofs.YamlFacts.
 
 (** * read_class (C16) *)
@@ -232,3 +232,160 @@ Proof.
   match goal with |- context [node_render f fi cfg ctbl n ?m] => pose proof (node_render_no_panic f fi cfg ctbl n m s Hc Hw) as Hr;
     destruct (node_render f fi cfg ctbl n m); cbn [bind]; congruence end.
 Qed.
+
+(** * C01: each class is merged at most once; include loops; the walk always returns *)
+Definition disjoint (a b : list string) : Prop := forall x, In x a -> ~ In x b.
+
+Definition walker_once (recur : walker) : Prop :=
+  forall cn seen loading root c' seen' root',
+    recur cn seen loading root = Ok (c', seen', root') ->
+    NoDup seen -> disjoint seen loading ->
+    (exists new, seen' = seen ++ new) /\ NoDup seen' /\ disjoint seen' loading.
+
+Lemma include_loop_once fi cfg tbl recur self_loc loading : walker_once recur -> forall cs seen root seen' root',
+  include_loop fi cfg tbl recur self_loc loading cs seen root = Ok (seen', root') ->
+  NoDup seen -> disjoint seen loading ->
+  (exists new, seen' = seen ++ new) /\ NoDup seen' /\ disjoint seen' loading.
+Proof.
+  intros Hrec. induction cs as [|c cs IH]; intros seen root seen' root' H Hnd Hdj; cbn [include_loop] in H.
+  - injection H as <- <-. split; [exists []; now rewrite app_nil_r | split; assumption].
+  - destruct (include_name fi (n_params root) c) as [name0| | |]; cbn [bind] in H; try discriminate.
+    set (name := abs_class_name self_loc name0) in *.
+    destruct (mem name seen) eqn:Es; [eapply IH; eauto|].
+    destruct (mem name loading) eqn:El; [discriminate|].
+    destruct (read_class cfg tbl self_loc name) as [[cn|]| | |]; cbn [bind] in H; try discriminate; [|eapply IH; eauto].
+    destruct (recur cn seen (loading ++ [name]) root) as [[[c' seen1] root1]| | |] eqn:Er; cbn [bind] in H; try discriminate.
+    apply mem_false in Es, El.
+    assert (Hdj1 : disjoint seen (loading ++ [name])).
+    { intros x Hx Hin. apply in_app_iff in Hin as [Hin|[<-|[]]]; [eapply Hdj; eauto | tauto]. }
+    destruct (Hrec _ _ _ _ _ _ _ Er Hnd Hdj1) as ((new1 & ->) & Hnd1 & Hdj2).
+    assert (Hn1 : ~ In name (seen ++ new1)).
+    { intros Hin. apply (Hdj2 name Hin). apply in_or_app. right. now left. }
+    destruct (IH _ _ _ _ H) as ((new2 & ->) & Hnd3 & Hdj3).
+    + apply NoDup_snoc; assumption.
+    + intros x Hx Hin. apply in_app_iff in Hx as [Hx|[<-|[]]]; [|tauto].
+      apply (Hdj2 x Hx). apply in_or_app. now left.
+    + split; [exists (new1 ++ [name] ++ new2); now rewrite !app_assoc | split; assumption].
+Qed.
+
+Lemma render_impl_once fi cfg tbl : forall f, walker_once (render_impl f fi cfg tbl).
+Proof.
+  induction f as [|f IH]; intros self seen loading root c' seen' root' H Hnd Hdj; cbn [render_impl] in H; [discriminate|].
+  destruct (include_loop fi cfg tbl (render_impl f fi cfg tbl) (n_loc self) loading (n_classes self) seen root)
+    as [[seen1 root1]| | |] eqn:E; cbn [bind] in H; try discriminate.
+  destruct (merge_into self root1) as [[a b]| | |]; cbn [bind] in H; try discriminate.
+  injection H as _ <- _. eapply include_loop_once; eauto.
+Qed.
+
+(** the list of merged classes of a rendered node has no duplicates: every class is merged the
+    first time it is reached and never again *)
+Theorem classes_merged_once f fi cfg tbl self c' seen' root' :
+  render_impl f fi cfg tbl self [] [] empty_node = Ok (c', seen', root') -> NoDup seen'.
+Proof.
+  intros H. destruct (render_impl_once fi cfg tbl f _ _ _ _ _ _ _ H) as (_ & Hnd & _); [constructor | intros x [] | exact Hnd].
+Qed.
+
+(** a class that (transitively) includes itself is an error naming the loop, not a hang *)
+Theorem include_loop_reported fi cfg tbl recur self_loc loading c cs seen root name0 :
+  include_name fi (n_params root) c = Ok name0 ->
+  mem (abs_class_name self_loc name0) seen = false ->
+  mem (abs_class_name self_loc name0) loading = true ->
+  include_loop fi cfg tbl recur self_loc loading (c :: cs) seen root =
+    Err (EIncludeLoop loading (abs_class_name self_loc name0)).
+Proof. intros H1 H2 H3. cbn [include_loop]. rewrite H1. cbn [bind]. now rewrite H2, H3. Qed.
+
+(** the walk always returns: with fuel beyond the number of classes it never runs out, as long as
+    rendering the include names does not *)
+Definition names (tbl : list cls_entry) : list string := map ce_name tbl.
+
+Lemma find_class_names n tbl ce : find_class n tbl = Some ce -> In n (names tbl).
+Proof. intros H. apply find_class_name in H as [<- Hin]. unfold names. now apply in_map. Qed.
+
+Lemma node_of_yaml_loc loc doc n : node_of_yaml loc doc = Ok n -> n_loc n = loc.
+Proof.
+  unfold node_of_yaml. destruct doc as [| | | | | fields |]; try discriminate.
+  destruct (y_string_list "applications" (y_field "applications" fields)); cbn [bind]; try discriminate.
+  destruct (y_string_list "classes" (y_field "classes" fields)); cbn [bind]; try discriminate.
+  destruct (match y_field "parameters" fields with
+            | None => Ok (YMap []) | Some (YMap m) => Ok (YMap m) | Some _ => Err (EYamlShape "parameters") end) as [pd| | |];
+    cbn [bind]; try discriminate.
+  destruct (try_mapping_of_yaml pd); cbn [bind]; try discriminate. intros H; injection H as <-. reflexivity.
+Qed.
+
+Lemma node_of_yaml_no_fuel loc doc : node_of_yaml loc doc <> OutOfFuel.
+Proof.
+  unfold node_of_yaml. destruct doc as [| | | | | fields |]; try discriminate.
+  assert (Y : forall what o, y_string_list what o <> OutOfFuel).
+  { intros what o. unfold y_string_list. destruct o as [y|]; [|discriminate]. destruct y; try discriminate. destruct (y_strings l); discriminate. }
+  pose proof (Y "applications" (y_field "applications" fields)).
+  destruct (y_string_list "applications" (y_field "applications" fields)); cbn [bind]; try congruence.
+  pose proof (Y "classes" (y_field "classes" fields)).
+  destruct (y_string_list "classes" (y_field "classes" fields)); cbn [bind]; try congruence.
+  destruct (y_field "parameters" fields) as [y|]; [destruct y as [| | | | | pm |]|]; cbn [bind]; try discriminate.
+  unfold try_mapping_of_yaml. destruct (try_value_no_panic (YMap pm) PStackOverflow) as [_ H1].
+  destruct (try_value_of_yaml (YMap pm)) as [v| | |]; cbn [bind]; try congruence. destruct v; discriminate.
+Qed.
+
+Definition loc_ok (loc : list string) : Prop := Forall (fun s => s <> "" /\ no_leading_dot s) loc.
+
+Section Terminates.
+Variables (fi : nat) (cfg : ncfg) (tbl : list cls_entry).
+Hypothesis Hinc : forall params c, include_name fi params c <> OutOfFuel.
+Hypothesis Hloc : Forall (fun ce => loc_ok (ce_loc ce)) tbl.
+
+Definition walker_fuel (recur : walker) (budget : nat) : Prop :=
+  forall cn seen loading root,
+    loc_ok (n_loc cn) -> NoDup loading -> incl loading (names tbl) ->
+    List.length (names tbl) - List.length loading < budget ->
+    recur cn seen loading root <> OutOfFuel.
+
+Lemma include_loop_fuel recur budget self_loc loading :
+  walker_fuel recur budget -> loc_ok self_loc -> NoDup loading -> incl loading (names tbl) ->
+  List.length (names tbl) - List.length loading <= budget ->
+  forall cs seen root, include_loop fi cfg tbl recur self_loc loading cs seen root <> OutOfFuel.
+Proof.
+  intros Hrec Hsl Hnd Hincl Hb. induction cs as [|c cs IH]; intros seen root; cbn [include_loop]; [discriminate|].
+  pose proof (Hinc (n_params root) c).
+  destruct (include_name fi (n_params root) c) as [name0| | |]; cbn [bind]; try congruence; try discriminate.
+  set (name := abs_class_name self_loc name0).
+  destruct (mem name seen); [apply IH|].
+  destruct (mem name loading) eqn:El; [discriminate|].
+  unfold read_class. assert (Eabs : abs_class_name self_loc name = name) by (apply abs_idempotent, Hsl).
+  rewrite Eabs. destruct (find_class name tbl) as [ce|] eqn:F.
+  - pose proof (node_of_yaml_no_fuel (ce_loc ce) (ce_doc ce)) as Hnf.
+    destruct (node_of_yaml (ce_loc ce) (ce_doc ce)) as [cn| | |] eqn:En; cbn [map_err bind]; try discriminate; try congruence.
+    apply mem_false in El.
+    assert (Hin : In name (names tbl)) by (eapply find_class_names; eauto).
+    assert (Hnd' : NoDup (loading ++ [name])) by (apply NoDup_snoc; assumption).
+    assert (Hincl' : incl (loading ++ [name]) (names tbl)).
+    { intros x Hx. apply in_app_iff in Hx as [Hx|[<-|[]]]; [apply Hincl, Hx | exact Hin]. }
+    assert (Hlen : List.length (loading ++ [name]) <= List.length (names tbl)) by (apply NoDup_incl_length; assumption).
+    rewrite app_length in Hlen. cbn [List.length] in Hlen.
+    assert (Hcl : loc_ok (n_loc cn)).
+    { rewrite (node_of_yaml_loc _ _ _ En). apply find_class_name in F as [_ Hce]. rewrite Forall_forall in Hloc. apply Hloc, Hce. }
+    assert (Hr : recur cn seen (loading ++ [name]) root <> OutOfFuel).
+    { apply Hrec; try assumption. rewrite app_length. cbn [List.length]. lia. }
+    destruct (recur cn seen (loading ++ [name]) root) as [[[c' seen1] root1]| | |]; cbn [bind]; try congruence; try discriminate.
+  - destruct (c_ignore cfg && mem name (c_matches cfg)); cbn [bind]; [apply IH | discriminate].
+Qed.
+
+Lemma render_impl_fuel : forall f, walker_fuel (render_impl f fi cfg tbl) f.
+Proof.
+  induction f as [|f IH]; intros self seen loading root Hl Hnd Hincl Hb; [lia|].
+  cbn [render_impl].
+  pose proof (include_loop_fuel (render_impl f fi cfg tbl) f (n_loc self) loading IH Hl Hnd Hincl ltac:(lia) (n_classes self) seen root) as Hlp.
+  destruct (include_loop fi cfg tbl (render_impl f fi cfg tbl) (n_loc self) loading (n_classes self) seen root)
+    as [[seen' root']| | |]; cbn [bind]; try congruence; try discriminate.
+  unfold merge_into. destruct (merge_total (n_params self) (n_params root')) as [[m ->] | [k ->]]; cbn [bind]; discriminate.
+Qed.
+
+(** the include walk returns for every include graph, cyclic ones included *)
+Theorem include_walk_returns self seen root :
+  loc_ok (n_loc self) ->
+  render_impl (S (List.length tbl)) fi cfg tbl self seen [] root <> OutOfFuel.
+Proof.
+  intros Hl. apply render_impl_fuel; [exact Hl | constructor | intros x [] |].
+  unfold names. rewrite map_length. cbn [List.length]. lia.
+Qed.
+
+End Terminates.
